@@ -942,3 +942,6 @@ func HarnessC13BloomNew() {
 // HarnessC13WalkAliases: WalkDAG over 4-node shapes with identity nodes and CIDv0/v1 aliases (thorough tier; the quick
 // tier runs these bounds as HarnessC13WalkShapes).
 func HarnessC13WalkAliases() { zzvRunWalk(verifrt.Param("N", 4), zzvParamFeatures()) }
+
+// HarnessC13WalkEnvIdent: the environment walk (locality, failing fetches, stopping emit, two walks) with identity nodes.
+func HarnessC13WalkEnvIdent() { zzvRunWalk(verifrt.Param("N", 3), zzvParamFeatures()) }
